@@ -223,6 +223,11 @@ class BvInterp(Interp):
                 ca, cb = as_const(x), as_const(y)
                 if ca is not None and cb is not None:
                     return I(int({"Eq": ca == cb, "Ne": ca != cb, "Lt": ca < cb, "Le": ca <= cb, "Gt": ca > cb, "Ge": ca >= cb}[base]))
+                # a single-bit quantity (one source bit at position 0, zeros above) compared with 1 / 0: the boolean is that bit
+                for u, c in ((x, cb), (y, ca)):
+                    if c is not None and isinstance(u[1][0], tuple) and all(z == 0 for z in u[1][1:]):
+                        if (base == "Eq" and c == 1) or (base == "Ne" and c == 0):
+                            return bv([u[1][0]])
                 return I(0, 1)
             return ("bv", ("?",) * w)
         return super().binop(op, a, b, ty, fv, line)
